@@ -38,6 +38,7 @@ type VerifC04Part struct {
 	Imports              []VerifC04Import // part.ImportRecordIndices, in order
 	Declared             [][2]uint32      // top-level declared symbols (links followed)
 	DeclaredKinds        []uint8          // ast.SymbolKind of each declared symbol (before following links)
+	DeclaredIsImport     []bool           // the declared symbol is a key of AST.NamedImports (an import item)
 	Uses                 [][2]uint32      // symbol uses (links followed)
 }
 
@@ -109,6 +110,8 @@ func verifC04Dump(c *linkerContext, dump *VerifC04Dump) {
 					if declared.IsTopLevel {
 						p.Declared = append(p.Declared, verifC04Ref(c, declared.Ref))
 						p.DeclaredKinds = append(p.DeclaredKinds, uint8(c.graph.Symbols.Get(declared.Ref).Kind))
+						_, isImport := repr.AST.NamedImports[declared.Ref]
+						p.DeclaredIsImport = append(p.DeclaredIsImport, isImport)
 					}
 				}
 				for ref := range part.SymbolUses {
